@@ -280,7 +280,12 @@ theorem C11 (lk : LookFn) (cfg : Config) (pats : List Bytes) (translated : Hir) 
         | none => exact absurd hm (heng.none_ hay hsh s e)
         | some i =>
           obtain ⟨s1, hm1, hmin⟩ := heng.some_ hay i hsh
-          refine ⟨.confirmed i, rfl, ?_⟩
+          -- `Candidate(i)` under `verify_on_line`, else `Confirmed(i)`: the same offset either way
+          refine ⟨if cfg.verifyOnLine (norm (cfg.wrap h0)) then .candidate i else .confirmed i,
+            by split <;> rfl, ?_⟩
+          have hoff : (if cfg.verifyOnLine (norm (cfg.wrap h0)) then Cand.candidate i else Cand.confirmed i).offset = i := by
+            split <;> rfl
+          rw [hoff]
           intro t ht
           have hle := hmin s e hm
           have hsp := Matches.span hm
@@ -297,6 +302,24 @@ theorem C11 (lk : LookFn) (cfg : Config) (pats : List Bytes) (translated : Hir) 
                 (fun h' hs hm' => stripN_sound lk norm hnorm translated h' lt hay s1 i hs hm') t ht
           intro j h1 h2
           exact hfree j (by omega) h2
+
+/-- After /repo 4165f41 `find_candidate_line` can answer `Candidate` in a second way (no literal regex, but
+`verify_on_line`): that candidate is the end of a real match of the buffer — never an offset the engine did not
+reach by matching — so promise (c) holds for it exactly as for `Confirmed` (this is the last case of `C11`). -/
+theorem candidate_without_literals_is_match_end (lk : LookFn) (m : MatcherM) (shortest : Bytes → Option Nat)
+    (heng : EngineSpec lk m.hir shortest) (hf : m.fastLits = none) (hay : Bytes) (c : Cand)
+    (hc : m.findCandidateLine shortest hay = some c) :
+    ∃ s, Matches lk m.hir hay s c.offset ∧ ∀ s' e', Matches lk m.hir hay s' e' → s ≤ e' := by
+  unfold MatcherM.findCandidateLine at hc
+  rw [hf] at hc
+  cases hs : shortest hay with
+  | none => simp [hs] at hc
+  | some i =>
+    have hoff : c.offset = i := by
+      simp only [hs, Option.map_some] at hc
+      split at hc <;> (cases hc; rfl)
+    rw [hoff]
+    exact heng.some_ hay i hs
 
 /-! ### the evaluator the harness compares the real engine with -/
 
